@@ -30,7 +30,7 @@ func ruleDownloaderLoad(c *Check, rPair, rOver, rCorrupt string) {
 	d := param(fn, 0)
 	ni := param(fn, 2)
 	nRet, bad, badO, badC := 0, 0, 0, 0
-	nOver, nCorrupt := 0, 0
+	nOver, nCorrupt, nBlob := 0, 0, 0
 	// does the OnClose closure release its captured token?
 	closureReleases := func(name string) (bool, string) {
 		cl := c.P.Func(name)
@@ -88,6 +88,33 @@ func ruleDownloaderLoad(c *Check, rPair, rOver, rCorrupt string) {
 			}
 		}
 		ld := callsOf(p, "snapshot.LoadData")
+		// the compressed blob exists from Load until LoadData has consumed it:
+		// the download token must cover that whole interval, including the wait
+		// for a decompress token (that wait is what bounds the blobs in memory)
+		var dlTok *Event
+		for _, a := range acq {
+			if !strings.HasSuffix(a.Args[0], ".decompressedSnapshotLimit") {
+				dlTok = a
+			}
+		}
+		for _, l := range callsOf(p, "iface:simpleblob.Interface.Load") {
+			nBlob++
+			if dlTok == nil || eventIndex(p, dlTok) > eventIndex(p, l) {
+				bad++
+				c.Bad(rPair, fnDlLoadOnce+"/blob-under-token", "a blob is downloaded without holding a download token", evPos(c, l), nil)
+				continue
+			}
+			end := len(p.Events)
+			if len(ld) == 1 {
+				end = eventIndex(p, ld[0])
+			}
+			for _, r := range callsOf(p, fnRelease) {
+				if r.Args[0] == dlTok.Res && !r.Defd && eventIndex(p, r) < end {
+					bad++
+					c.Bad(rPair, fnDlLoadOnce+"/blob-under-token", "the download token is released while the downloaded blob is still held (before it has been decoded): while downloaders wait for a decompress token, every further instance downloads and keeps its blob, so memory_downloaded_snapshots no longer bounds the blobs in memory", evPos(c, r), describe(c, p))
+				}
+			}
+		}
 		if len(ld) == 1 {
 			okd, f := boolCond(p, "isnil("+ld[0].Res+"#1)", -1)
 			if f && !okd {
@@ -154,6 +181,7 @@ func ruleDownloaderLoad(c *Check, rPair, rOver, rCorrupt string) {
 		c.Ok(rPair, fnDlLoadOnce+"/tokens", fmt.Sprintf("%d return paths: the download token is released on every path (deferred); the decompress token is released on the decode-error path and otherwise handed to the stored update's OnClose, which releases it", nRet), pos)
 	}
 	c.Floor(rPair, nRet, 3, "return paths of Downloader.LoadOnce")
+	c.Floor(rPair, nBlob, 2, "paths downloading a blob")
 	if badO == 0 {
 		c.Ok(rOver, fnDlLoadOnce+"/overwritten-closed", fmt.Sprintf("the decoded snapshot replaces the instance's entry under the receiver's lock; on the %d path(s) where an entry existed it is closed afterwards", nOver), pos)
 	}
